@@ -97,7 +97,7 @@ PublishTo(s, targets, e, h) ==
     IF targets = <<>> THEN s
     ELSE LET t  == Head(targets)
              s1 == DoUpdate(s, t, e.id, e.lvl, e.src, h, e.prev)
-             s2 == DoEnqueue(s1, LastUpd(s1, t))
+             s2 == DoEnqueue(s1, [LastUpd(s1, t) EXCEPT !.tag = e.tag])   \* the republished event keeps its data (tags)
          IN  PublishTo(s2, Tail(targets), e, h)
 
 Cur == [ev |-> events, so |-> sorted, co |-> collected, qu |-> queue, ul |-> updLog, se |-> sent]
